@@ -345,6 +345,10 @@ func (o *DatReaderOptimizer) Optimize(rules []*config_parser.RoutingRule) ([]*co
 						params, loadErr = o.loadGeoIp("geoip", param.Val)
 					case "ext":
 						fields := strings.SplitN(param.Val, ":", 2)
+						if len(fields) != 2 {
+							results <- ruleResult{idx, nil, fmt.Errorf("invalid ext value %q in function %v: expected <file>:<code>", param.Val, f.Name)}
+							return
+						}
 						switch f.Name {
 						case consts.Function_Domain, consts.Function_QName:
 							params, loadErr = o.loadGeoSite(fields[0], fields[1])
